@@ -68,11 +68,26 @@ def _child_loop(check, env, conn, dumpfile, timeout):
             faulthandler.dump_traceback_later(max(1.0, timeout - 1.0), repeat=False, file=dump, exit=False)
         reset_hwm()
         rss0 = vm_rss_kb()
-        try:
-            out = check.execute(case, env)
-            res = ("ok", out)
-        except BaseException as e:  # includes SystemExit/KeyboardInterrupt raised by the code under test
-            res = ("exc", type(e).__name__, traceback.format_exc())
+        res = None
+        for attempt in range(3):
+            try:
+                out = check.execute(case, env)
+                res = ("ok", out)
+                break
+            except SystemError as e:
+                # "<function> returned a result with an exception set": the destructor of a codec extension object
+                # (inflate64.Deflater freed with pending data after a failed write of an EARLIER case) left an error behind that
+                # the next unrelated C call trips over.  It says nothing about this case: clear it and run the case again.
+                res = ("exc", type(e).__name__, traceback.format_exc())
+                if "with an exception set" not in str(e):
+                    break
+                try:
+                    gc.collect()
+                except BaseException:
+                    pass
+            except BaseException as e:  # includes SystemExit/KeyboardInterrupt raised by the code under test
+                res = ("exc", type(e).__name__, traceback.format_exc())
+                break
         # a codec extension object freed with pending data (inflate64.Deflater after a failed write) sets an error in its
         # destructor; absorb it here so that it cannot surface as a SystemError in harness code
         for _ in range(3):
